@@ -589,15 +589,33 @@ func runC01(replay string) int {
 	}
 	hist := c01Histories(run.Thorough())
 	units := c01ConcUnits(run.Thorough())
-	budget := ev.NewDeadline(secs(170))
+	// each pass has its own time budget (a budget only stops expansion: exhaustive=false, never a verdict)
+	budget, concBudget := ev.NewDeadline(secs(240)), ev.NewDeadline(secs(120))
 	if run.Thorough() {
-		budget = ev.NewDeadline(secs(1500))
+		budget, concBudget = ev.NewDeadline(secs(1800)), ev.NewDeadline(secs(700))
 	}
 	run.Sharded(Shards(), func(shard, n int) {
 		// process-lifetime dimension: the first history of every shard runs in a fresh process and is re-run at the end (warm)
 		var firstCase *c01Case
 		var firstVec []string
 		done, skipped := 0, 0
+		concSkipped := 0
+		// concurrent-request pass (c01_conc.go)
+		for _, u := range units {
+			if concBudget.Hit() {
+				concSkipped++
+				continue
+			}
+			// thorough: every dynamic hit of every point for the histories in which the access list is observable under the default order
+			everyHit := run.Thorough() && u.Order == 0 && strings.Contains(u.Case.String(), "probe-cpcs")
+			execs, placements := c01ConcCheck(run, u, everyHit, shard, n)
+			run.Count("transitions", int64(execs))
+			run.Count("conc_placements", int64(placements))
+			if shard == 0 {
+				run.Count("conc_units", 1)
+				run.Outcome(fmt.Sprintf("conc:%s", c01ReqNames[u.Req]))
+			}
+		}
 		for i := range hist {
 			if i%n != shard {
 				continue
@@ -620,22 +638,6 @@ func runC01(replay string) int {
 				run.Sample(map[string]interface{}{"history": c.String(), "environment_executions": execs})
 			}
 		}
-		// concurrent-request pass (c01_conc.go)
-		for _, u := range units {
-			if budget.Hit() {
-				skipped++
-				continue
-			}
-			// thorough: every dynamic hit of every point for the histories in which the access list is observable under the default order
-			everyHit := run.Thorough() && u.Order == 0 && strings.Contains(u.Case.String(), "probe-cpcs")
-			execs, placements := c01ConcCheck(run, u, everyHit, shard, n)
-			run.Count("transitions", int64(execs))
-			run.Count("conc_placements", int64(placements))
-			if shard == 0 {
-				run.Count("conc_units", 1)
-				run.Outcome(fmt.Sprintf("conc:%s", c01ReqNames[u.Req]))
-			}
-		}
 		if firstCase != nil {
 			warm, _, _ := c01Exec(*firstCase, c01Policy{})
 			run.Count("fresh_vs_warm_process_comparisons", 1)
@@ -644,9 +646,9 @@ func runC01(replay string) int {
 					Replay: c01Replay{Case: *firstCase, Policy: c01Policy{}}})
 			}
 		}
-		if skipped > 0 {
+		if skipped > 0 || concSkipped > 0 {
 			run.Coverage["exhaustive"] = false
-			run.Note("time budget: shard %d skipped %d histories", shard, skipped)
+			run.Note("time budget: shard %d skipped %d histories and %d concurrent-request units", shard, skipped, concSkipped)
 		}
 	})
 	h := run.Counter("histories")
